@@ -137,17 +137,111 @@ def run_case(case):
                     "clause": "every reported match is a genuine instance and every instance in the region is reported",
                     "observed": {"code": code, "pattern": pattern, "missing": missing[:2], "extra": extra[:2]}}
         return {"status": "ok", "nontrivial": bool(want), "key": repr(case)}
-    # restructure with goal == pattern
+    # restructure through the real API on a temp project: goal == pattern, and a goal that permutes / duplicates the wildcards
+    import shutil, tempfile
+    from rope.base.project import Project
+    names = sorted(set(re.findall(r"\$\{(\w+)\}", pattern)))
+    goals = [pattern]
+    if len(names) >= 2:
+        swapped = pattern
+        swapped = swapped.replace("${%s}" % names[0], "\0").replace("${%s}" % names[1], "${%s}" % names[0]).replace("\0", "${%s}" % names[1])
+        goals.append(swapped)
+    root = tempfile.mkdtemp(prefix="verif-c19-")
     try:
-        out = restructure.replace(code, pattern, pattern)
-    except Exception as e:
-        return {"status": "fail", "why": "restructuring with goal == pattern raised %s: %s" % (type(e).__name__, str(e)[:80]), "clause": "restructuring succeeds",
-                "observed": {"exception": type(e).__name__, "code": code, "pattern": pattern}}
-    try:
-        same = ast.dump(ast.parse(out)) == ast.dump(ast.parse(code))
-    except SyntaxError:
-        same = False
-    if not same:
-        return {"status": "fail", "why": "goal == pattern %r changed the syntax tree of module %d" % (pattern, ci),
-                "clause": "with goal equal to pattern the program's syntax tree is unchanged", "observed": {"code": code, "pattern": pattern, "result": out}}
+        p = Project(root, ropefolder=None)
+        f = p.root.create_file("m.py")
+        for goal in goals:
+            f.write(code)
+            try:
+                ch = restructure.Restructure(p, pattern, goal).get_changes()
+                p.do(ch)
+            except Exception as e:
+                return {"status": "fail", "why": "restructuring %r -> %r raised %s: %s" % (pattern, goal, type(e).__name__, str(e)[:80]), "clause": "restructuring succeeds",
+                        "observed": {"exception": type(e).__name__, "code": code, "pattern": pattern, "goal": goal}}
+            out = f.read()
+            # expected tree: every outermost instance replaced by the goal with the bound code inserted
+            expected = _expected(code, pattern, goal)
+            if expected is None:
+                continue          # nested instances: composition order is not specified by the statement
+            try:
+                got = ast.dump(ast.parse(out))
+            except SyntaxError:
+                return {"status": "fail", "why": "restructuring %r -> %r gives text that does not parse" % (pattern, goal), "clause": "the result parses",
+                        "observed": {"code": code, "pattern": pattern, "goal": goal, "result": out}}
+            if got != expected:
+                return {"status": "fail", "why": "restructuring %r -> %r on module %d: the result's syntax tree is not the module with each match replaced by the goal%s"
+                        % (pattern, goal, ci, " (goal == pattern must leave the tree unchanged)" if goal == pattern else ""),
+                        "clause": "each match is replaced by the goal with the bound code inserted so that it keeps its meaning; goal == pattern leaves the tree unchanged",
+                        "observed": {"code": code, "pattern": pattern, "goal": goal, "result": out}, "witness_case": [pattern, goal, code]}
+        p.close()
+    finally:
+        shutil.rmtree(root, ignore_errors=True)
     return {"status": "ok", "nontrivial": bool(ref), "key": repr(case)}
+
+
+class _Subst(ast.NodeTransformer):
+    def __init__(self, binding):
+        self.b = binding
+
+    def visit_Name(self, node):
+        if node.id.startswith("__w_") and node.id[4:] in self.b:
+            import copy
+            return copy.deepcopy(self.b[node.id[4:]])
+        return node
+
+
+def _expected(code, pattern, goal):
+    import copy
+    tree = ast.parse(code)
+    pt = ast.parse(_to_py(pattern)).body
+    gt = ast.parse(_to_py(goal)).body
+    expr = len(pt) == 1 and isinstance(pt[0], ast.Expr)
+    matches = []
+    if expr:
+        for n in ast.walk(tree):
+            if isinstance(n, ast.expr):
+                b = {}
+                if _ref_match(pt[0].value, n, b):
+                    matches.append((n, b))
+        ids = {id(n) for n, b in matches}
+        for n, b in matches:
+            for d in ast.walk(n):
+                if d is not n and id(d) in ids:
+                    return None
+
+        class R(ast.NodeTransformer):
+            def generic_visit(self, node):
+                for n, b in matches:
+                    if node is n:
+                        return _Subst(b).visit(copy.deepcopy(gt[0].value))
+                return super().generic_visit(node)
+
+            def visit(self, node):
+                for n, b in matches:
+                    if node is n:
+                        return _Subst(b).visit(copy.deepcopy(gt[0].value))
+                return super().visit(node)
+        new = R().visit(tree)
+    else:
+        found = []
+        for n in ast.walk(tree):
+            for field in ("body", "orelse", "finalbody"):
+                stmts = getattr(n, field, None)
+                if isinstance(stmts, list) and stmts and isinstance(stmts[0], ast.stmt):
+                    i = 0
+                    out = []
+                    while i < len(stmts):
+                        b = {}
+                        if i + len(pt) <= len(stmts) and all(_ref_match(p_, s_, b) for p_, s_ in zip(pt, stmts[i:i + len(pt)])):
+                            out += [_Subst(b).visit(copy.deepcopy(g)) for g in gt]
+                            i += len(pt)
+                        else:
+                            out.append(stmts[i])
+                            i += 1
+                    setattr(n, field, out)
+        new = tree
+    ast.fix_missing_locations(new)
+    try:
+        return ast.dump(ast.parse(ast.unparse(new)))
+    except Exception:
+        return None
